@@ -213,6 +213,11 @@ theorem C10_counterexample_early :
     `eager` is not an input), GetMetas still enumerates in map order (which is why the candidate order IS an input) -/
 theorem C10_refresh_sorted : Ioc.Facts.refreshSortsNames = true ∧ Ioc.Facts.getMetasSorts = false := by decide
 
+/-- … and what it sorts by: the component NAMES with the plain `<` on strings — a total order that does not depend on the
+    order in which the definitions were enumerated (a comparator mixing names with `Order()` values is not transitive
+    and makes the creation order, hence the outcome on cycles with substitutes, depend on the enumeration) -/
+theorem C10_refresh_by_name : Ioc.Facts.refreshSortCall = "names | i j | i < j" := by decide
+
 /-! non-vacuity of C10_run_perm_partial: the benign ring under both orders (both starts succeed), and the ring with a
     failing Init of 2 (both fail) -/
 example : SameUpToOrder (ring [1, 2]) (ring [2, 1]) ∧ NoSubstitution (ring [1, 2]) ∧ NoSubstitution (ring [2, 1]) ∧
